@@ -205,13 +205,16 @@ pub fn apply_change_to_db_try_fix_conflicts(
 }
 
 pub fn unwatch_key(key: &String, sender: &Sender<String>, db: &Database) -> Response {
-    let mut senders = get_senders(&key, &db.watchers);
+    // The list is copied, filtered and written back under one write lock, so that a
+    // registration another client makes meanwhile is not overwritten with the stale copy
+    let mut watchers = db.watchers.map.write().expect("db.watchers.map.lock");
+    let mut senders = match watchers.get(key) {
+        Some(watchers_vec) => watchers_vec.clone(),
+        _ => Vec::new(),
+    };
     log::debug!("Senders before unwatch {:?}", senders.len());
     senders.retain(|x| !x.same_receiver(&sender));
     log::debug!("Senders after unwatch {:?}", senders.len());
-    #[cfg(nun_verif)]
-    crate::verif::yield_point("unwatch_key.watchers.write");
-    let mut watchers = db.watchers.map.write().expect("db.watchers.map.lock");
     watchers.insert(key.clone(), senders);
     Response::Ok {}
 }
